@@ -9,12 +9,15 @@ checks on) and `diverge` (fuel).
 Parts: Props/C15Bytes.lean (the same laws over file BYTES, `computeBytes`; bytes = records),
 Props/C15Entry.lean (executed iff entered under the shape condition `EntryFirst`, and the witness
 that it is needed), Props/C15Mismatch.lean (a function-checksum mismatch is an `err` below the
-overflow guard, of a kind that does not depend on the order of the matching gcda files).
+overflow guard, of a kind that does not depend on the order of the matching gcda files),
+Props/C15Stamp.lean (the version clause over the four stamp BYTES: false for non-canonical stamps,
+finding C15-version-stamp-middle-char-ignored).
 -/
 import GrcovModel.Lemmas.GcnoFinal
 import GrcovModel.Props.C15Bytes
 import GrcovModel.Props.C15Entry
 import GrcovModel.Props.C15Mismatch
+import GrcovModel.Props.C15Stamp
 namespace Grcov.Props.C15
 open Grcov Grcov.Gcno AList Outcome
 
@@ -96,8 +99,9 @@ theorem C15_executed_iff_entered (g : Notes) (ds : List Gcda) (br : Bool) (r : L
   rw [compute_eq, hs] at h
   exact foldl_finStep_fnAt br fs [] r pre post f c e h hlast
 
-/-- A gcda whose version differs from the notes is rejected with an error, whatever was
-accumulated before. -/
+/-- A gcda whose version NUMBER (what `read_version` computes from the stamp) differs from the
+notes is rejected with an error, whatever was accumulated before. Over the stamp bytes:
+`C15_stamp_mismatch_rejected_partial` / `…_false` (Props/C15Stamp.lean). -/
 theorem C15_version_mismatch_rejected (g : Notes) (st : State) (d : Gcda)
     (h : d.version ≠ g.version) : addGcda g st d = err .versionMismatch := by
   unfold addGcda; rw [if_pos h]
